@@ -29,6 +29,8 @@ def public_roots(w, crate):
     for b in w.fn_bodies(crate):
         j = b.j
         if b.def_kind in ('Fn', 'AssocFn') and j.get('effective_pub'):
+            if 'serde' in (j.get('impl_trait') or {}).get('path', ''):
+                continue      # Serialize / Deserialize of Config (feature `serde`): drives the caller's (de)serializer, not part of formatting
             roots.append(b)
     return roots
 
